@@ -874,7 +874,7 @@ class DispersiveTilt(TiltInterface):
             # Compute the arc length by numerically integrating from lambda_ref (dispersion[-1])
             # to wavelength
             #return self._arc_len(self._dispersion_dist_func, self.dispersion[-1], wavelength)
-            return scipy.optimize.leastsq(self._dist_cost_func, x0=0, args=(wavelength,))[0]
+            return scipy.optimize.leastsq(self._dist_cost_func, x0=0, args=(wavelength,))[0][0]
 
     def _trace(self, dist):
 
@@ -885,7 +885,7 @@ class DispersiveTilt(TiltInterface):
             # Find x by matching the observed distance along the trace computed by
             # self._arc_len(self._trace_dist_func(x), 0, x) with the known distance
             # along the trace dist as provided from the wavelength (via self._dispersion)
-            x = scipy.optimize.leastsq(self._trace_cost_func, x0=0, args=(dist,))[0]
+            x = scipy.optimize.leastsq(self._trace_cost_func, x0=0, args=(dist,))[0][0]
 
         y = np.polyval(self.trace, x)
 
